@@ -243,7 +243,17 @@ type Plan struct {
 	BadLeft                 int  // Begin is answered driver.ErrBadConn this many times first
 	CommitPanics, RbPanics  bool // the driver's Commit / Rollback panics
 	CommitErr, RbErr        error // what a failing Commit / Rollback returns (nil: a plain marked error)
+	Hung                    bool  // a call of an earlier par op never came back: no further par op is run on this driver
+	TagConn                 bool  // every log token carries the connection it arrived on (@<id>): concurrent transactions
+	nextConn                int
 	log                     []string
+}
+
+func (p *Plan) newConnID() int {
+	p.mu.Lock()
+	defer p.mu.Unlock()
+	p.nextConn++
+	return p.nextConn
 }
 
 func (p *Plan) Reset(beginOk, commitOk, rbOk bool) {
@@ -290,10 +300,12 @@ func (d *Drv) Open(name string) (driver.Conn, error) {
 	if strings.Contains(name, "bad") {
 		return nil, NewSrcErr("conn", nil)
 	}
-	return &conn{p: d.P}, nil
+	return &conn{p: d.P, id: d.P.newConnID()}, nil
 }
 
-func (d *Drv) Connect(context.Context) (driver.Conn, error) { return &conn{p: d.P}, nil }
+func (d *Drv) Connect(context.Context) (driver.Conn, error) {
+	return &conn{p: d.P, id: d.P.newConnID()}, nil
+}
 
 func (d *Drv) Driver() driver.Driver { return d }
 
@@ -302,6 +314,14 @@ func (d *Drv) Driver() driver.Driver { return d }
 type conn struct {
 	p    *Plan
 	inTx bool
+	id   int
+}
+
+func (c *conn) at() string {
+	if !c.p.TagConn {
+		return ""
+	}
+	return fmt.Sprintf("@%d", c.id)
 }
 
 // Prepare (a prepared statement inside the transaction): preparing is not logged, executing it is logged and
@@ -320,7 +340,7 @@ func (c *conn) tag(letter string, i int) string {
 	if !c.inTx {
 		letter = "O"
 	}
-	return fmt.Sprintf("%s%d", letter, i)
+	return fmt.Sprintf("%s%d", letter, i) + c.at()
 }
 
 // stmtErr: the driver's fault on statement i; " badconn": the error wraps driver.ErrBadConn (inside a transaction
@@ -365,7 +385,7 @@ func (c *conn) BeginTx(context.Context, driver.TxOptions) (driver.Tx, error) {
 		c.p.add("B!")
 		return nil, NewSrcErr("begin", nil)
 	}
-	c.p.add("B")
+	c.p.add("B" + c.at())
 	c.inTx = true
 	return &tx{p: c.p, c: c}, nil
 }
@@ -425,7 +445,7 @@ func (t *tx) Commit() error {
 		}
 		return NewSrcErr("commit", nil)
 	}
-	t.p.add("C")
+	t.p.add("C" + t.c.at())
 	return nil
 }
 
@@ -442,7 +462,7 @@ func (t *tx) Rollback() error {
 		}
 		return NewSrcErr("rollback", nil)
 	}
-	t.p.add("R")
+	t.p.add("R" + t.c.at())
 	return nil
 }
 
@@ -793,6 +813,34 @@ func Exhaustive(api string, maxLen int) []string {
 	return ops
 }
 
+// ExhaustiveRaw: bodies that end the raw *sql.Tx themselves (Commit / Rollback, accepted / refused by the driver) after
+// 0..maxLen statements and then return nil / an error / panic; a statement fault before it (the raw end is not
+// reached); the Commit / Rollback answers of the plan (which go-zero's own end never gets to use).
+func ExhaustiveRaw(api string, maxLen int) []string {
+	var ops []string
+	for n := 0; n <= maxLen; n++ {
+		for _, raw := range []string{"c", "C", "r", "R"} {
+			for _, end := range []string{"ok", "err:plain", "err:txdone", "panic", "panicint"} {
+				for _, ans := range []string{"ok", "fail", "fail:txdone:b"} {
+					st := strings.Repeat("X", n)
+					if st == "" {
+						st = "-"
+					}
+					ops = append(ops, fmt.Sprintf("tx api=%s begin=ok bad=%d stmts=%s end=%s commit=%s rollback=%s brk=allow cancel=- raw=%s",
+						api, n%2, st, end, ans, ans, raw))
+				}
+			}
+			if n > 0 {
+				ops = append(ops, fmt.Sprintf("tx api=%s begin=ok bad=0 stmts=%s end=ok commit=ok rollback=ok brk=allow cancel=- raw=%s",
+					api, strings.Repeat("X", n-1)+"f", raw))
+				ops = append(ops, fmt.Sprintf("tx api=%s begin=fail bad=0 stmts=%s end=ok commit=ok rollback=ok brk=allow cancel=- raw=%s",
+					api, strings.Repeat("X", n), raw))
+			}
+		}
+	}
+	return ops
+}
+
 // ExhaustiveAcc sweeps the acceptable-error classes over every place an error of a transaction can come from
 // (the body's own error, a QueryRow that finds no row at statement k, the driver's Commit error, the driver's
 // Rollback error after a body error / after a panic), each in its forms (Is method / wrapped / bare sentinel),
@@ -859,6 +907,8 @@ type Sess struct {
 	QueryRowPartial func(q string) error
 	// RawDB: RawDB() of a connection made from the transaction's session: (a *sql.DB came back, the error)
 	RawDB func() (bool, error)
+	// RawEnd: Commit() (true) / Rollback() on the transaction's raw *sql.Tx (nil: out of reach)
+	RawEnd func(commit bool) error
 	// CV: "1" the context the body was given carries the value the caller put into the context it passed to
 	// TransactCtx, "0" it does not, "-" the entry point hands the body no context
 	CV string
@@ -941,8 +991,179 @@ func DefaultBodyErr(cls string, variant int) error {
 	return nil
 }
 
+// RunPar: `par n0=<k> n1=<k> end0=<ok|err> end1=<ok|err> sched=<0/1…>` — TWO TransactCtx calls in flight on the two
+// SqlConn instances of the section (one pool). Each call has n+2 steps (Begin up to the first statement; each
+// statement; its end) and moves one step when the scheduler grants it: first along sched, then call 0 to its end,
+// then call 1. Only one call moves at a time, so the driver log (every token with its connection, renamed in order of
+// first appearance) is deterministic.
+func RunPar(op []string, h Hooks) string {
+	m := kv(op[1:])
+	var n [2]int
+	var endOk [2]bool
+	for t := 0; t < 2; t++ {
+		k, err := strconv.Atoi(m[fmt.Sprintf("n%d", t)])
+		if err != nil || k < 1 || k > 50 {
+			return "bad-op par n"
+		}
+		n[t] = k
+		switch m[fmt.Sprintf("end%d", t)] {
+		case "ok":
+			endOk[t] = true
+		case "err":
+		default:
+			return "bad-op par end"
+		}
+	}
+	sched := m["sched"]
+	if sched == "-" {
+		sched = ""
+	}
+	if strings.Trim(sched, "01") != "" {
+		return "bad-op par sched"
+	}
+	if h.Plan.Hung {
+		return "log=- ret0=hung runs0=0 ret1=hung runs1=0"
+	}
+	h.Plan.Reset(true, true, true)
+	h.Plan.mu.Lock()
+	h.Plan.TagConn = true
+	h.Plan.mu.Unlock()
+	defer func() {
+		h.Plan.mu.Lock()
+		h.Plan.TagConn = false
+		h.Plan.mu.Unlock()
+	}()
+	const (
+		running = iota
+		atPoint
+		finished
+	)
+	type ev struct{ fin bool }
+	var events, grant [2]chan ev
+	var status [2]int
+	var rets [2]error
+	var runs [2]int
+	var escaped [2]any
+	for t := 0; t < 2; t++ {
+		events[t], grant[t] = make(chan ev), make(chan ev)
+	}
+	point := func(t int) { events[t] <- ev{}; <-grant[t] }
+	for t := 0; t < 2; t++ {
+		t := t
+		go func() {
+			defer func() {
+				if p := recover(); p != nil {
+					escaped[t] = p
+				}
+				events[t] <- ev{fin: true}
+			}()
+			point(t)
+			mark := "?"
+			var core Core
+			rets[t] = h.Call("ctx", "", true, t, func(s Sess) error {
+				runs[t]++
+				for i := 0; i < n[t]; i++ {
+					point(t)
+					if e := s.Exec(fmt.Sprintf("c14 %d ok", i+100*t)); e != nil {
+						return e
+					}
+				}
+				point(t)
+				if endOk[t] {
+					return nil
+				}
+				return NewSrcErr("body.plain", nil)
+			}, &mark, &core)
+		}()
+	}
+	// a call that neither reaches its next step nor returns (it runs some OTHER body, e.g. one kept from an earlier
+	// call, which waits for a scheduler that is gone) is given up after a generous while: reported as `hung`
+	var hung [2]bool
+	wait := func(t int) {
+		for status[t] == running {
+			select {
+			case e := <-events[t]:
+				if e.fin {
+					status[t] = finished
+				} else {
+					status[t] = atPoint
+				}
+			case <-time.After(5 * time.Second):
+				status[t], hung[t] = finished, true
+				h.Plan.Hung = true
+			}
+		}
+	}
+	wait(0)
+	wait(1)
+	steps := sched + strings.Repeat("0", n[0]+2) + strings.Repeat("1", n[1]+2)
+	for _, c := range steps {
+		t := int(c - '0')
+		if status[t] == atPoint {
+			status[t] = running
+			grant[t] <- ev{}
+			wait(t)
+		}
+	}
+	// connection ids in order of first appearance
+	ren := map[string]string{}
+	var toks []string
+	for _, tk := range strings.Split(h.Plan.Log(), ",") {
+		if i := strings.IndexByte(tk, '@'); i >= 0 {
+			id := tk[i+1:]
+			if _, ok := ren[id]; !ok {
+				ren[id] = strconv.Itoa(len(ren) + 1)
+			}
+			tk = tk[:i+1] + ren[id]
+		}
+		toks = append(toks, tk)
+	}
+	out := "log=" + strings.Join(toks, ",")
+	for t := 0; t < 2; t++ {
+		r := Classify(rets[t], h.Extra)
+		if escaped[t] != nil {
+			r = "PANIC"
+		}
+		if hung[t] {
+			r = "hung"
+		}
+		out += fmt.Sprintf(" ret%d=%s runs%d=%d", t, r, t, runs[t])
+	}
+	return out
+}
+
+// ParOps: interleavings of two transactions in flight (round-robin, one after the other, the second overtaking, and
+// drawn ones)
+func ParOps(r *verifh.Rng, count int) []string {
+	var ops []string
+	add := func(n0, n1 int, e0, e1, sched string) {
+		if sched == "" {
+			sched = "-"
+		}
+		ops = append(ops, fmt.Sprintf("par n0=%d n1=%d end0=%s end1=%s sched=%s", n0, n1, e0, e1, sched))
+	}
+	for _, e := range [][2]string{{"ok", "ok"}, {"ok", "err"}, {"err", "ok"}, {"err", "err"}} {
+		add(1, 1, e[0], e[1], "")             // one after the other (the connection may be reused)
+		add(2, 2, e[0], e[1], "01010101")     // round robin
+		add(2, 1, e[0], e[1], "0111")         // the second overtakes the first
+		add(1, 3, e[0], e[1], "1011110")      // the second begins first
+	}
+	for i := 0; i < count; i++ {
+		n0, n1 := r.Range(1, 4), r.Range(1, 4)
+		b := make([]byte, r.Range(0, n0+n1+4))
+		for j := range b {
+			b[j] = "01"[r.Intn(2)]
+		}
+		add(n0, n1, r.PickS("ok", "err"), r.PickS("ok", "err"), string(b))
+	}
+	return ops
+}
+
 // RunOp executes one `tx …` operation on the real code and returns the observation.
 func RunOp(op []string, h Hooks) string {
+	if len(op) > 0 && op[0] == "par" {
+		return RunPar(op, h)
+	}
 	if len(op) == 0 || op[0] != "tx" {
 		return "bad-op"
 	}
@@ -1047,7 +1268,7 @@ func RunOp(op []string, h Hooks) string {
 			// the body length steers the form of the value: the standard sentinel itself / a value that answers
 			// errors.Is through its Is method / a value that wraps the sentinel
 			variant := len(stmts) % 3
-			if rbBare && variant == 0 {
+			if (rbBare || m["raw"] == "c" || m["raw"] == "C" || m["raw"] == "r" || m["raw"] == "R") && variant == 0 {
 				variant = 1
 			}
 			endErr = DefaultBodyErr(cls, variant)
@@ -1056,6 +1277,14 @@ func RunOp(op []string, h Hooks) string {
 			return "unsupported-class " + cls
 		}
 	}
+	raw := m["raw"]
+	if raw == "-" {
+		raw = ""
+	}
+	if raw != "" && raw != "c" && raw != "C" && raw != "r" && raw != "R" {
+		return "bad-op raw=" + raw
+	}
+	rawReached := false
 	runs := 0
 	bodyOut := "notrun"
 	cv := "-"
@@ -1167,6 +1396,18 @@ func RunOp(op []string, h Hooks) string {
 				return e
 			}
 		}
+		if raw != "" {
+			// the body ends the raw Tx itself (the driver answers as the letter says), looks away from the result and
+			// carries on to its own end
+			if s.RawEnd == nil {
+				panic("c14 harness: the raw *sql.Tx is out of reach here")
+			}
+			commit, ok := raw == "c" || raw == "C", raw == "c" || raw == "r"
+			h.Plan.CommitOk, h.Plan.RbOk, h.Plan.CommitErr, h.Plan.RbErr = ok, ok, nil, nil
+			h.Plan.CommitPanics, h.Plan.RbPanics = false, false
+			rawReached = true
+			s.RawEnd(commit)
+		}
 		switch m["end"] {
 		case "ok":
 			bodyOut = "nil"
@@ -1232,6 +1473,14 @@ func RunOp(op []string, h Hooks) string {
 		bare = bareName["rollback"]
 	} else if strings.HasSuffix(lg, "C!") {
 		bare = bareName["commit"]
+	}
+	if rawReached {
+		// go-zero's own Commit / Rollback is refused by database/sql with the bare sql.ErrTxDone
+		if bodyOut == "nil" {
+			bare = map[error]string{sql.ErrTxDone: "commit.txdone"}
+		} else {
+			bare = map[error]string{sql.ErrTxDone: "rollback.txdone"}
+		}
 	}
 	coreObs := ""
 	if core.Seen {
